@@ -1,7 +1,19 @@
 // C05 correspondence harness, family unit `opt` (see harness/c05_common.hpp and harness/c05.cpp)
 #include "c05_common.hpp"
 
+#include <fcppt/make_cref.hpp>
+#include <fcppt/make_ref.hpp>
 #include <fcppt/optional/alternative.hpp>
+#include <fcppt/optional/assign.hpp>
+#include <fcppt/optional/copy_value.hpp>
+#include <fcppt/optional/make.hpp>
+#include <fcppt/optional/make_if.hpp>
+#include <fcppt/optional/maybe.hpp>
+#include <fcppt/optional/maybe_multi.hpp>
+#include <fcppt/optional/maybe_void.hpp>
+#include <fcppt/optional/maybe_void_multi.hpp>
+#include <fcppt/optional/reference.hpp>
+#include <fcppt/optional/to_exception.hpp>
 #include <fcppt/optional/apply.hpp>
 #include <fcppt/optional/bind.hpp>
 #include <fcppt/optional/cat.hpp>
@@ -128,24 +140,19 @@ std::string op_opt2(std::string const &_op, line_t const &L)
   auto b{mk_opt<T>(L.args[1])};
   mark(b);
   g_log.clear();
-  bool const comb{_op == "optcombine"};
-  opt<T> const r{with_cat<T::copyable>(
-      L.cat(0),
-      a,
-      [&](auto &&x)
-      {
-        return with_cat<T::copyable>(
-            L.cat(1),
-            b,
-            [&](auto &&y)
-            {
-              if (comb)
-                return fcppt::optional::combine(FWD(x), FWD(y), first_of_two{});
-              return fcppt::optional::apply(first_of_two{}, FWD(x), FWD(y));
-            });
-      })};
+  if (_op == "optcombine")
+  {
+    opt<T> const r{with_cats2<T::copyable>(L, a, b, [](auto &&x, auto &&y) { return fcppt::optional::combine(FWD(x), FWD(y), sink_second{}); })};
+    event_log const log{g_log};
+    return finish(opt_tag(r), opt_slots(r), {opt_slots(a), opt_slots(b)}, log);
+  }
+  // optional::apply: both arguments reach the function, each with its own value category
+  opt<pair2<T>> const r{with_cats2<true>(L, a, b, [](auto &&x, auto &&y) { return fcppt::optional::apply(both{}, FWD(x), FWD(y)); })};
   event_log const log{g_log};
-  return finish(opt_tag(r), opt_slots(r), {opt_slots(a), opt_slots(b)}, log);
+  slots_t sr;
+  if (r.has_value())
+    add_pair(sr, r.get_unsafe());
+  return finish(opt_tag(r), sr.str(), {opt_slots(a), opt_slots(b)}, log);
 }
 
 template <typename T>
@@ -165,6 +172,180 @@ std::string op_optvec(std::string const &_op, line_t const &L)
   std::vector<T> const r{with_cat<T::copyable>(L.cat(0), v, [](auto &&x) { return fcppt::optional::cat<std::vector<T>>(FWD(x)); })};
   event_log const log{g_log};
   return finish("-", slots(r), {optvec_slots(v)}, log);
+}
+
+// ---------------------------------------------------------------- optional: constructors, assign, to_exception, maybe*, copy_value
+
+template <typename T>
+std::string op_opt_more(std::string const &_op, line_t const &L)
+{
+  if (_op == "optmake" || _op == "optctor")
+  {
+    need(L.args.size() == 1 && L.n(0) == 1 && L.par.empty());
+    T x{L.args[0].ids[0]};
+    mark(x);
+    g_log.clear();
+    opt<T> const r{with_cat<T::copyable>(
+        L.cat(0),
+        x,
+        [&](auto &&v)
+        {
+          if (_op == "optmake")
+            return fcppt::optional::make(FWD(v));
+          return opt<T>{FWD(v)};
+        })};
+    event_log const log{g_log};
+    slots_t sx;
+    sx.add(x);
+    return finish(opt_tag(r), opt_slots(r), {sx.str()}, log);
+  }
+  if (_op == "optassign")
+  {
+    // only the rvalue instantiation exists: the requires-clause compares Element with remove_cv_t<Arg> (a reference for an lvalue)
+    need(L.args.size() == 2 && L.cat(0) == 'i' && L.cat(1) == 'r' && L.n(1) == 1 && L.par.empty());
+    auto o{mk_opt<T>(L.args[0])};
+    mark(o);
+    T x{L.args[1].ids[0]};
+    mark(x);
+    g_log.clear();
+    T &r{fcppt::optional::assign(o, std::move(x))};
+    event_log const log{g_log};
+    slots_t sx;
+    sx.add(x);
+    return finish("R" + std::to_string(r.id), "-", {opt_slots(o), sx.str()}, log);
+  }
+  if (_op == "opttoexc")
+  {
+    need(L.args.size() == 1 && L.par.empty());
+    auto o{mk_opt<T>(L.args[0])};
+    mark(o);
+    g_log.clear();
+    try
+    {
+      T const r{with_cat<T::copyable>(
+          L.cat(0), o, [](auto &&x) { return fcppt::optional::to_exception(FWD(x), [] { return std::runtime_error{"nothing"}; }); })};
+      event_log const log{g_log};
+      slots_t sr;
+      sr.add(r);
+      return finish("-", sr.str(), {opt_slots(o)}, log);
+    }
+    catch (std::runtime_error const &)
+    {
+      event_log const log{g_log};
+      return finish("exc", "-", {opt_slots(o)}, log);
+    }
+  }
+  if (_op == "optmakeif")
+  {
+    need(L.args.empty() && L.par.size() == 1 && (L.par[0] == 0 || L.par[0] == 1));
+    g_log.clear();
+    opt<T> const r{fcppt::optional::make_if(L.par[0] == 1, [] { return T{1000}; })};
+    event_log const log{g_log};
+    return finish(opt_tag(r), opt_slots(r), {}, log);
+  }
+  if (_op == "optmaybe" || _op == "optmaybevoid")
+  {
+    need(L.args.size() == 1 && L.par.empty());
+    auto o{mk_opt<T>(L.args[0])};
+    mark(o);
+    g_log.clear();
+    if (_op == "optmaybe")
+    {
+      T const r{with_cat<true>(L.cat(0), o, [](auto &&x) { return fcppt::optional::maybe(FWD(x), [] { return T{1000}; }, thru{}); })};
+      event_log const log{g_log};
+      slots_t sr;
+      sr.add(r);
+      return finish("-", sr.str(), {opt_slots(o)}, log);
+    }
+    std::vector<T> sink;
+    sink.reserve(4);
+    with_cat<true>(
+        L.cat(0),
+        o,
+        [&sink](auto &&x)
+        {
+          fcppt::optional::maybe_void(FWD(x), [&sink](auto &&e) { sink.push_back(thru{}(FWD(e))); });
+          return 0;
+        });
+    event_log const log{g_log};
+    return finish("-", slots(sink), {opt_slots(o)}, log);
+  }
+  if (_op == "optmaybemulti2" || _op == "optmaybevoidmulti2")
+  {
+    need(L.args.size() == 2 && L.par.empty());
+    auto a{mk_opt<T>(L.args[0])};
+    mark(a);
+    auto b{mk_opt<T>(L.args[1])};
+    mark(b);
+    g_log.clear();
+    if (_op == "optmaybemulti2")
+    {
+      std::vector<T> const r{with_cats2<true>(
+          L,
+          a,
+          b,
+          [](auto &&x, auto &&y)
+          {
+            return fcppt::optional::maybe_multi(
+                []
+                {
+                  std::vector<T> v;
+                  v.push_back(T{1000});
+                  return v;
+                },
+                collect<T>{},
+                FWD(x),
+                FWD(y));
+          })};
+      event_log const log{g_log};
+      return finish("-", slots(r), {opt_slots(a), opt_slots(b)}, log);
+    }
+    std::vector<T> sink;
+    sink.reserve(4);
+    with_cats2<true>(
+        L,
+        a,
+        b,
+        [&sink](auto &&x, auto &&y)
+        {
+          fcppt::optional::maybe_void_multi(
+              [&sink](auto &&e, auto &&f)
+              {
+                sink.push_back(thru{}(FWD(e)));
+                sink.push_back(thru{}(FWD(f)));
+              },
+              FWD(x),
+              FWD(y));
+          return 0;
+        });
+    event_log const log{g_log};
+    return finish("-", slots(sink), {opt_slots(a), opt_slots(b)}, log);
+  }
+  if (_op == "optcopyvalue")
+  {
+    // an optional reference (T & for `l`, T const & for `c`); copy_value copies the referenced object
+    need(L.args.size() == 1 && L.n(0) <= 1 && L.par.empty() && (L.cat(0) == 'l' || L.cat(0) == 'c'));
+    if constexpr (T::copyable)
+    {
+      T x{L.n(0) == 1 ? L.args[0].ids[0] : 0};
+      mark(x);
+      g_log.clear();
+      opt<T> const r{
+          L.cat(0) == 'l'
+              ? fcppt::optional::copy_value(
+                    L.n(0) == 1 ? fcppt::optional::reference<T>{fcppt::make_ref(x)} : fcppt::optional::reference<T>{})
+              : fcppt::optional::copy_value(
+                    L.n(0) == 1 ? fcppt::optional::reference<T const>{fcppt::make_cref(x)} : fcppt::optional::reference<T const>{})};
+      event_log const log{g_log};
+      slots_t sx;
+      if (L.n(0) == 1)
+        sx.add(x);
+      return finish(opt_tag(r), opt_slots(r), {sx.str()}, log);
+    }
+    else
+      throw bad_op{};
+  }
+  throw bad_op{};
 }
 
 template <typename T>
@@ -188,6 +369,9 @@ bool dispatch(std::string const &_op, line_t const &L, std::string &_out)
     return (_out = op_opt2<T>(_op, L), true);
   if (_op == "optapply2")
     return (_out = op_opt2<T>(_op, L), true);
+  if (_op == "optmake" || _op == "optctor" || _op == "optassign" || _op == "opttoexc" || _op == "optmakeif" || _op == "optmaybe" ||
+      _op == "optmaybevoid" || _op == "optmaybemulti2" || _op == "optmaybevoidmulti2" || _op == "optcopyvalue")
+    return (_out = op_opt_more<T>(_op, L), true);
   if (_op == "optseq")
     return (_out = op_optvec<T>(_op, L), true);
   if (_op == "optcat")
